@@ -93,11 +93,13 @@ pub fn complete(
                 }
             }
         } else if let Some(short) = arg.to_short() {
-            let (_, takes_value_opt, mut short) = parse_shortflags(current_cmd, short);
+            let (flags, takes_value_opt, mut short) = parse_shortflags(current_cmd, short);
             if let Some(opt) = takes_value_opt {
                 if short.next_value_os().is_none() {
                     next_state = ParseState::Opt((opt, 1));
                 }
+            } else if arg.to_value().is_ok() && flags.chars().all(|c| has_short(current_cmd, c)) {
+                // Known flags stay flags even if the next positional allows hyphen values
             } else if pos_allows_hyphen(current_cmd, pos_index) {
                 (next_state, pos_index) =
                     parse_positional(current_cmd, pos_index, is_escaped, current_state);
@@ -680,6 +682,13 @@ fn parse_opt_value(opt: &clap::Arg, count: usize) -> ParseState<'_> {
     } else {
         ParseState::ValueDone
     }
+}
+
+fn has_short(cmd: &clap::Command, short: char) -> bool {
+    cmd.get_arguments().any(|a| {
+        a.get_short_and_visible_aliases()
+            .is_some_and(|shorts| shorts.contains(&short))
+    })
 }
 
 fn pos_allows_hyphen(cmd: &clap::Command, pos_index: usize) -> bool {
